@@ -42,7 +42,8 @@ NULL = uuidlib.UUID(int=0)
 
 
 def gen_case(rng, tier, index):
-    g = gen_rewrite.Gen(rng, tier, isa=("x64", "elf"))
+    g = gen_rewrite.Gen(rng, tier, isa=("x64", "elf"),
+                        other_sections=False)
     case = g.module()
     # procedures: runs of consecutive code blocks inside one interval
     nproc = 0
